@@ -38,6 +38,8 @@ SPECS = {
     'SIRS': (['S', 'I', 'R'], [('I', 'R', 'gamma'), ('R', 'S', 'xi')], [(('I', 'S'), ('I', 'I'), 'tau')]),
     'SEIR': (['S', 'E', 'I', 'R'], [('E', 'I', 'sigma'), ('I', 'R', 'gamma')], [(('I', 'S'), ('I', 'E'), 'tau')]),
     'compete': (['S', 'I1', 'I2', 'R'], [('I1', 'R', 'g1'), ('I2', 'R', 'g2')], [(('I1', 'S'), ('I1', 'I1'), 't1'), (('I2', 'S'), ('I2', 'I2'), 't2')]),
+    # rumour spreading (Maki-Thompson): a spreader meeting a spreader stifles it -- an induced transition between EQUAL statuses
+    'rumour': (['S', 'I', 'R'], [], [(('I', 'S'), ('I', 'I'), 'tau'), (('I', 'I'), ('I', 'R'), 'sigma')]),
     'vacc': (['S', 'I', 'R', 'V'], [('S', 'V', 'nu'), ('I', 'R', 'gamma')], [(('I', 'S'), ('I', 'I'), 'tau')]),
 }
 DIGRAPHS_Q = ['D:2:01', 'D:3:01,12', 'D:3:01,10,12', 'D:3:01,12,20']
@@ -45,7 +47,7 @@ DIGRAPHS_Q = ['D:2:01', 'D:3:01,12', 'D:3:01,10,12', 'D:3:01,12,20']
 
 def _ics(spec, n, tier):
     statuses = SPECS[spec][0]
-    active = {'SI': 'I', 'SIS': 'I', 'SIR': 'I', 'SIRS': 'I', 'SEIR': 'I', 'compete': 'I1', 'vacc': 'I'}[spec]
+    active = {'SI': 'I', 'SIS': 'I', 'SIR': 'I', 'SIRS': 'I', 'SEIR': 'I', 'compete': 'I1', 'vacc': 'I', 'rumour': 'I'}[spec]
     out = []
     if tier == 'thorough' and n <= 2:
         for a in itertools.product(statuses, repeat=n):
@@ -77,7 +79,7 @@ def _ics(spec, n, tier):
 def configs(tier):
     out = []
     E = 3 if tier == 'quick' else 4
-    specs = ['SIS', 'SIR', 'SIRS', 'SEIR', 'compete'] if tier == 'quick' else list(SPECS)
+    specs = ['SIS', 'SIR', 'SIRS', 'SEIR', 'compete', 'rumour'] if tier == 'quick' else list(SPECS)
     ugl = ['K2', 'K2+K1', 'P3', 'K3'] if tier == 'quick' else list(graphs.G3)
     dgl = DIGRAPHS_Q if tier == 'quick' else list(graphs.digraphs(2)) + list(graphs.digraphs(3))[:16:2] + DIGRAPHS_Q
     for spec in specs:
